@@ -31,18 +31,26 @@ func extend(check, harness string, quick, thorough func() []Item) {
 func init() {
 	extend("C02", "C02_reduce",
 		func() []Item { return sItems("op", redOps, rankItems(1, 1, 5, nil)) },
-		func() []Item { return sItems("op", redOps, mergeItems(rankItems(1, 1, 6, nil), rankItems(2, 2, 4, nil))) })
+		func() []Item {
+			return sItems("op", redOps, mergeItems(rankItems(1, 1, 6, nil), rankItems(2, 2, 4, nil)))
+		})
 	extend("C02", "C02_unary", nil, func() []Item { return c02Unary(1, 1, 6) })
 	extend("C02", "C02_dot", func() []Item { return rankItems(1, 1, 4, nil) }, func() []Item { return rankItems(1, 2, 4, nil) })
 	extend("C02", "C02_matmul", nil, func() []Item { return rankItems(2, 2, 4, nil) })
 	extend("C05", "C05_full",
 		func() []Item { return sItems("op", redOps, rankItems(1, 1, 6, nil)) },
-		func() []Item { return sItems("op", redOps, mergeItems(rankItems(1, 1, 8, nil), rankItems(2, 2, 5, nil))) })
+		func() []Item {
+			return sItems("op", redOps, mergeItems(rankItems(1, 1, 8, nil), rankItems(2, 2, 5, nil)))
+		})
 	extend("C05", "C05_along",
 		func() []Item { return sItems("op", redOps, rankItems(1, 1, 6, nil)) },
-		func() []Item { return sItems("op", redOps, mergeItems(rankItems(1, 1, 8, nil), rankItems(2, 2, 5, nil))) })
+		func() []Item {
+			return sItems("op", redOps, mergeItems(rankItems(1, 1, 8, nil), rankItems(2, 2, 5, nil)))
+		})
 	extend("C03", "C03_unary", func() []Item { return unaryItems(1, 1, 5) }, func() []Item { return unaryItems(1, 1, 8) })
-	extend("C03", "C03_cmp", nil, func() []Item { return sItems("op", []string{"Eq", "Gt", "Le", "ElMax", "Equals"}, rankItems(1, 1, 6, nil)) })
+	extend("C03", "C03_cmp", nil, func() []Item {
+		return sItems("op", []string{"Eq", "Gt", "Le", "ElMax", "Equals"}, rankItems(1, 1, 6, nil))
+	})
 	extend("C04", "C04_matmul", nil, func() []Item { return pairItemsLo(2, 2, 4) })
 	extend("C06", "C06_slice", func() []Item { return rankItems(1, 1, 4, nil) }, func() []Item { return rankItems(1, 2, 4, nil) })
 	extend("C06", "C06_reshape", nil, func() []Item { return rankItems(1, 2, 4, map[string]int64{"maxrank2": 4}) })
@@ -57,6 +65,11 @@ func init() {
 		func() []Item { return lossItems(4, 1, []int64{0}) },
 		func() []Item { return lossItems(5, 1, []int64{0}) })
 	extend("C12", "C12_loss", func() []Item { return lossItems(4, 1, []int64{0}) }, func() []Item { return lossItems(5, 2, []int64{0}) })
+	shared := func() []Item {
+		return []Item{{P: map[string]int64{"maxb": 1, "maxf": 2, "maxo": 2, "steps": 2, "sharedinit": 1}, S: map[string]string{"act": "none", "loss": "MSE"}},
+			{P: map[string]int64{"maxb": 1, "maxf": 2, "maxo": 2, "steps": 2, "sharedinit": 1}, S: map[string]string{"act": "Tanh", "loss": "CE"}}}
+	}
+	extend("C11", "C11_train", shared, shared)
 	extend("C17", "C17_update", nil, func() []Item {
 		return mergeItems(rankItems(1, 1, 6, map[string]int64{"nilconf": 0}))
 	})
